@@ -1243,3 +1243,112 @@ Proof.
 Qed.
 
 End DecoderMessage.
+
+(* ------------------------------------------------------------------------ *)
+(* the optional section 2                                                    *)
+(* ------------------------------------------------------------------------ *)
+(* in the bundled definitions only section 2 is optional *)
+Lemma definitions_optional c : In c definitions -> s_optional c = true -> c = section2.
+Proof.
+  unfold definitions. cbn [In]. intros H He.
+  repeat (destruct H as [<-|H]; [try discriminate; try reflexivity|]). contradiction.
+Qed.
+
+Lemma transform_index info ign c : s_index (transform info ign c) = s_index c.
+Proof.
+  unfold transform, info_configuration, ignore_value_expectation.
+  destruct info, ign; try destruct (existsb is_data (s_params c)); reflexivity.
+Qed.
+Lemma transform_optional info ign c : s_optional (transform info ign c) = s_optional c.
+Proof.
+  unfold transform, info_configuration, ignore_value_expectation.
+  destruct info, ign; try destruct (existsb is_data (s_params c)); reflexivity.
+Qed.
+
+Lemma definitions_index2 c : In c definitions -> s_index c = 2%N -> c = section2.
+Proof.
+  unfold definitions. cbn [In]. intros H He.
+  repeat (destruct H as [<-|H]; [try discriminate; try reflexivity|]). contradiction.
+Qed.
+
+Lemma get_configuration_2 props : get_configuration definitions props 2 = Ok section2.
+Proof.
+  destruct (get_configuration definitions props 2) as [c|e] eqn:E.
+  - destruct (get_configuration_in _ _ _ _ E) as [Hin Hidx]. f_equal. apply definitions_index2; assumption.
+  - exfalso. unfold get_configuration in E.
+    change (negb (existsb (fun c => (s_index c =? 2)%N) definitions)) with false in E. cbv iota in E.
+    change (config_for definitions 2 0) with (Some section2) in E. cbv iota in E.
+    destruct (config_for definitions 2 (section_edition props)); discriminate.
+Qed.
+
+(* C04 section2_optional (configuration step): section 2 is configured exactly
+   when the flag attribute is true; every other section is always configured;
+   an absent section 2 costs the encoder no JSON item and no bits, the decoder
+   no bits *)
+Theorem section2_optional : forall props info ign,
+  (* the flag decides *)
+  (forall b, prop_get Nis_section2_presents props = Some (PBool b) ->
+     configure_section definitions props 2 info ign =
+       Ok (if b then Some (transform info ign section2) else None)) /\
+  (* never set (edition 1 layout does not export it): AttributeError *)
+  (prop_get Nis_section2_presents props = None ->
+     configure_section definitions props 2 info ign = Err EAttr) /\
+  (* all other sections are unconditional *)
+  (forall i oc, i <> 2%N -> configure_section definitions props i info ign = Ok oc -> oc <> None).
+Proof.
+  intros props info ign. split; [|split].
+  - intros b Hb. unfold configure_section.
+    rewrite get_configuration_2. cbn [bind].
+    assert (Hbw : existsb bytes_width_bad (s_params (transform info ign section2)) = false)
+      by (destruct info, ign; reflexivity).
+    rewrite Hbw. unfold section_present. rewrite transform_optional, transform_index.
+    change (s_optional section2) with true. change (s_index section2 =? 2)%N with true. cbn [negb].
+    rewrite Hb. reflexivity.
+  - intros Hb. unfold configure_section.
+    rewrite get_configuration_2. cbn [bind].
+    assert (Hbw : existsb bytes_width_bad (s_params (transform info ign section2)) = false)
+      by (destruct info, ign; reflexivity).
+    rewrite Hbw. unfold section_present. rewrite transform_optional, transform_index.
+    change (s_optional section2) with true. change (s_index section2 =? 2)%N with true. cbn [negb].
+    rewrite Hb. reflexivity.
+  - intros i oc Hi H. unfold configure_section in H. apply bind_ok in H as (c & Hc & H).
+    destruct (existsb bytes_width_bad _); [discriminate|]. apply bind_ok in H as (b & Hb & H).
+    injection H as <-. destruct (get_configuration_in _ _ _ _ Hc) as [Hin Hidx].
+    unfold section_present in Hb. rewrite transform_optional in Hb.
+    destruct (s_optional c) eqn:Ho; cbn [negb] in Hb.
+    + apply definitions_optional in Ho; [|exact Hin]. subst c. exfalso. apply Hi. symmetry. exact Hidx.
+    + injection Hb as <-. discriminate.
+Qed.
+
+Section Sec2Loop.
+Variable decode_data : list (pname * pvalue) -> reader -> result (bits * reader).
+
+(* the loops: an absent section 2 is passed over without consuming anything *)
+Theorem section2_absent_skipped : forall props info ign ign_len idxs json secs o r,
+  prop_get Nis_section2_presents props = Some (PBool false) ->
+  encode_sections ign_len definitions (2%N :: idxs) json props secs o =
+    match json with [] => Err EIndex | _ => encode_sections ign_len definitions idxs json props secs o end /\
+  decode_sections decode_data definitions info ign (2%N :: idxs) props secs r =
+    decode_sections decode_data definitions info ign idxs props secs r.
+Proof.
+  intros props info ign ign_len idxs json secs o r Hb.
+  destruct (section2_optional props info ign) as [H1 _].
+  destruct (section2_optional props false false) as [H2 _].
+  split.
+  - cbn [encode_sections]. destruct json; [reflexivity|]. rewrite (H2 _ Hb). reflexivity.
+  - cbn [decode_sections]. rewrite (H1 _ Hb). reflexivity.
+Qed.
+
+Theorem section2_present_processed : forall props info ign idxs secs r,
+  prop_get Nis_section2_presents props = Some (PBool true) ->
+  decode_sections decode_data definitions info ign (2%N :: idxs) props secs r =
+    let* (sec, props1, r1) := decode_section decode_data (transform info ign section2) props r in
+    decode_sections decode_data definitions info ign idxs props1 (secs ++ [sec]) r1.
+Proof.
+  intros props info ign idxs secs r Hb.
+  destruct (section2_optional props info ign) as [H1 _].
+  cbn [decode_sections]. rewrite (H1 _ Hb). cbn [bind].
+  replace (s_end (transform info ign section2)) with false by (destruct info, ign; reflexivity).
+  reflexivity.
+Qed.
+End Sec2Loop.
